@@ -1,23 +1,46 @@
 (* C18 — A failed source is re-created and restarted; a finished source ends the run.
-   Model: Model/Exec.v (source supervisor: SRunning k / SSleeping k / SClosed; trace events
-   TPrep k = new instance created + Init + Setup, TStart k, TEnd k ok).  Proofs in Proofs/ExecMain.v.
+   Model: Model/Exec.v (source supervisor: SRunning k / SSleeping k / SClosed / SDead; trace events
+   TPrep k = new instance created + Init + Setup, TStart k, TEnd k ok, TPrepFail k = Setup of the new
+   instance returned an error: prepareSource ends the process with os.Exit(1)).  Proofs in Proofs/ExecMain.v.
    That the same parameters and the same output channel are used every time is part of the harness
    observation (harness/e1: every incarnation's Setup receives the case's channel), not of the model. *)
 From Coq Require Import List ZArith Arith Bool.
-From FB Require Import Model.Exec Model.ExecInv Proofs.ExecMain.
+From FB Require Import Model.Exec Model.TraceSpec Model.ExecInv Proofs.ExecMain.
 Import ListNotations.
 
 (* For EVERY schedule: the source events of the trace are exactly, oldest first,
-     Prep 0, Start 0, End 0 err, Prep 1, Start 1, End 1 err, ..., Prep k, Start k [, End k nil]
+     Prep 0, Start 0, End 0 err, Prep 1, Start 1, End 1 err, ..., Prep k, Start k
+       [, End k nil  |  , End k err [, PrepFail (k+1)]]
    — every incarnation is prepared (created, Init, Setup) before it is started, started exactly once,
-   a new one exists only after the previous one returned an error, and a nil return is the last event. *)
+   a new one exists only after the previous one returned an error, a nil return is the last event, and so
+   is a failed Setup of a replacement (the process exits: that incarnation is never started). *)
 Theorem C18_source_history : forall nt T s, reachable nt T s ->
   match src s with
   | SRunning k => src_evs (tr s) = TStart k :: TPrep k :: failed k
   | SSleeping k => src_evs (tr s) = failed (S k)
   | SClosed => exists k, src_evs (tr s) = TEnd k true :: TStart k :: TPrep k :: failed k
+  | SDead => exists k, src_evs (tr s) = TPrepFail (S k) :: failed (S k)
   end.
 Proof. exact source_history_reachable. Qed.
+
+(* no incarnation is started unless it was prepared before (traces are newest first: [b] is the past) ... *)
+Theorem C18_start_needs_prep : forall nt T s, reachable nt T s ->
+  forall a k b, tr s = a ++ TStart k :: b -> In (TPrep k) b.
+Proof. exact start_needs_prep. Qed.
+
+(* ... and after a failed Setup nothing comes from the source any more: no Prep, Start, End, Emit, PrepFail *)
+Theorem C18_nothing_after_failed_setup : forall nt T s, reachable nt T s ->
+  forall a k b e, tr s = a ++ TPrepFail k :: b -> In e a ->
+    match e with TPrep _ | TStart _ | TEnd _ _ | TEmit _ | TPrepFail _ => False | _ => True end.
+Proof.
+  intros nt T s HR a k b e Ht Hin. pose proof (nothing_after_prepfail nt T s HR a k b e Ht Hin) as H.
+  destruct e; try discriminate H; exact I.
+Qed.
+
+(* a failed Setup ends the supervisor: no restart, no return, no emission is enabled, in any schedule *)
+Theorem C18_failed_setup_is_final : forall nt T s a,
+  src s = SDead -> src_action a = true \/ (exists e, a = SrcEmit e) -> step nt T s a = NotEnabled.
+Proof. exact source_dead_is_final. Qed.
 
 (* a nil return ends the run: no restart, no further emission, in any schedule *)
 Theorem C18_nil_is_final : forall nt T s a,
@@ -37,6 +60,21 @@ Example C18_two_failures_then_nil :
             /\ src_evs (tr s) = TEnd 2 true :: TStart 2 :: TPrep 2 :: failed 2.
 Proof. eexists. split; [vm_compute; reflexivity|reflexivity]. Qed.
 
+(* non-vacuity of the failed Setup: the run emit, error return, failed Setup reaches SDead with a trace the
+   specification accepts; starting the incarnation whose Setup failed is rejected (clauses 18.3 and 18.7) *)
+Example C18_setup_fail_run :
+  exists s, run sf_net 1 (init sf_net) [SrcEmit 1%Z; MainSend; SrcReturnErr; SrcSetupFail] = Ok s /\ src s = SDead
+            /\ tr s = [TPrepFail 1; TEnd 0 false; TEmit 1%Z; TStart 0; TSetup 0; TPrep 0]
+            /\ trace_ok sf_net (tr s) = [].
+Proof. exact setup_fail_run. Qed.
+Example C18_start_after_failed_setup_rejected :
+  trace_ok sf_net [TStart 1; TPrepFail 1; TEnd 0 false; TEmit 1%Z; TStart 0; TSetup 0; TPrep 0]
+  = [(18, 3); (18, 7)].
+Proof. exact start_after_prepfail_rejected. Qed.
+
 Print Assumptions C18_source_history.
+Print Assumptions C18_start_needs_prep.
+Print Assumptions C18_nothing_after_failed_setup.
+Print Assumptions C18_failed_setup_is_final.
 Print Assumptions C18_nil_is_final.
 Print Assumptions C18_emit_needs_running.
